@@ -319,6 +319,11 @@ func TestC18_DFS(t *testing.T) {
 		{Pre: []hOp{{"add", "a"}, {"add", "b"}, {"ready", "b"}}, Ops: []hOp{{"ready", "a"}, {"add", "b"}}, Requests: 2},
 		{Pre: []hOp{{"add", "a"}}, Ops: []hOp{{"ready", "a"}, {"add", "a"}, {"ready", "a"}}, Requests: 2},
 		{Pre: nil, Ops: []hOp{{"add", "a"}, {"ready", "a"}}, Requests: 2},
+		// re-registration of a ready component followed by the last missing ready-mark:
+		// a reader that sees "b ready" (old) and "a ready" (new) reports a state that never existed
+		{Pre: []hOp{{"add", "a"}, {"add", "b"}, {"ready", "b"}}, Ops: []hOp{{"add", "b"}, {"ready", "a"}}, Requests: 1},
+		{Pre: []hOp{{"add", "a"}, {"add", "b"}, {"add", "named-pipe-processor"}, {"ready", "b"}, {"ready", "named-pipe-processor"}},
+			Ops: []hOp{{"add", "named-pipe-processor"}, {"add", "b"}, {"ready", "a"}}, Requests: 1},
 	}
 	si, sn := shard()
 	all := true
